@@ -46,8 +46,8 @@ pub struct DictMachine {
     tags: Vec<String>,
 }
 
-const FIXED: [&[u8]; 8] = [b"", b"a", b"ab", b"abc", b"b", b"\0", b"\0x", b"\x01"];
-const N_REL: usize = 15; // 3 entries x 5 derived strings
+const FIXED: [&[u8]; 9] = [b"", b"a", b"ab", b"abc", b"b", b"\0", b"\0x", b"\x01", b"\x01x"];
+const N_REL: usize = 30; // (3 first + 3 last dictionary entries) x 5 derived strings
 const OP_PUSH: u32 = 0; // .. FIXED.len() + N_REL  (or 512 for AllBytes)
 const OP_CLEAR: u32 = 1000;
 const OP_SWITCH: u32 = 1001; // + k
@@ -70,7 +70,16 @@ impl DictMachine {
 
     fn relative(&self, k: usize) -> Option<Vec<u8>> {
         let dict = self.pool[self.cur].r.verif_codec().verif_dictionary();
-        let (entry, tag) = dict.get(k / 5)?;
+        // the first three and the last three entries (the latter sit at the far end of the decode table)
+        let e = k / 5;
+        let (entry, tag) = if e < 3 {
+            dict.get(e)?
+        } else {
+            if dict.len() < 4 {
+                return None;
+            }
+            dict.get(dict.len().checked_sub(e - 2)?)?
+        };
         Some(match k % 5 {
             0 => entry.clone(),
             1 => {
@@ -144,7 +153,19 @@ impl DictMachine {
                 Step::Ok
             }
             Err(p) => {
-                if ambiguous {
+                // data covered by the statistics the region was built from must be accepted (C01, C10):
+                // its first byte was seen by the sources, so it can never be bound to an entry
+                let in_statistics = self.pool[self.cur]
+                    .sources
+                    .as_ref()
+                    .map(|src| src.counts.iter().any(|(k, _)| k.as_slice() == s))
+                    .unwrap_or(false);
+                if ambiguous && in_statistics {
+                    Step::Violation(format!(
+                        "push({}) was refused although the same string was accepted by a region this one was merged from: {p}",
+                        show_bytes(s)
+                    ))
+                } else if ambiguous {
                     self.tags.push("push:refused-ambiguous".into());
                     Step::Refused(p)
                 } else {
@@ -295,6 +316,28 @@ impl DictMachine {
                 } else {
                     let _ = self.merge(1);
                 }
+            }
+            6 => {
+                // three generations; in the middle one an item is stored only as a dictionary code while
+                // ~300 more frequent strings push it out of the next dictionary
+                train(&mut self.pool[0], &[(b"\x01x", 3)]);
+                let _ = self.merge(1);
+                let c = self.cur;
+                train(&mut self.pool[c], &[(b"\x01x", 1)]);
+                for i in 0..300 {
+                    let s = format!("k{i}").into_bytes();
+                    train(&mut self.pool[c], &[(&s, 2)]);
+                }
+                let _ = self.merge(1 << c);
+            }
+            7 => {
+                // dictionary entries totalling more than 65535 bytes
+                for i in 0..80 {
+                    let mut s = format!("{i:04}").into_bytes();
+                    s.resize(1000, b'r');
+                    train(&mut self.pool[0], &[(&s, 2)]);
+                }
+                let _ = self.merge(1);
             }
             _ => {}
         }
